@@ -29,11 +29,11 @@ Proof.
   - destruct (f a) as [b|e] eqn:Ea.
     + apply Hf in Ea. destruct Ea as [Pa ->].
       destruct (mapM f l) as [bs'|e] eqn:El.
-      * apply IH in El. destruct El as [Pl ->]. split.
+      * destruct (proj1 (IH bs') eq_refl) as [Pl ->]. split.
         -- intros H; injection H as <-. split; auto.
         -- intros [_ ->]. reflexivity.
       * split; [discriminate|]. intros [HF ->]. inversion HF; subst.
-        assert (mapM f l = Ok (map g l)) by (apply IH; auto). congruence.
+        assert (Err e = Ok (map g l)) by (apply IH; auto). discriminate.
     + split; [discriminate|]. intros [HF ->]. inversion HF; subst.
       assert (f a = Ok (g a)) by (apply Hf; auto). congruence.
 Qed.
@@ -236,7 +236,8 @@ Proof.
     intros H; injection H as <-.
     destruct (good_dom_index d v i Hd Ei) as [Hn Hl].
     destruct (IH vs is' Hg Es) as [Hm HF].
-    cbn [combine mapM fst snd]. rewrite Hn, Hm. cbn. split; auto. constructor; auto.
+    cbn [combine mapM fst snd]. rewrite Hn, Hm. split; [reflexivity|].
+    unfold sizes_of. cbn [map]. constructor; auto.
 Qed.
 
 Lemma index_axes_ok : forall is sh acc, Forall2 lt is (firstn (length is) sh) -> length is <= length sh ->
@@ -245,7 +246,7 @@ Proof.
   induction is as [|i is IH]; intros sh acc HF Hl; cbn [map index_axes].
   - destruct sh; reflexivity.
   - destruct sh as [|s sh]; [cbn in Hl; lia|].
-    cbn in HF. inversion HF; subst. rewrite as_int_vnat.
+    cbn in HF. inversion HF; subst. cbn [index_axes]. rewrite as_int_vnat.
     assert (((0 <=? Z.of_nat i) && (Z.of_nat i <? Z.of_nat s))%Z = true) as ->.
     { apply andb_true_iff. rewrite Z.leb_le, Z.ltb_lt. lia. }
     rewrite Nat2Z.id. cbn [rm_offset length skipn]. apply IH; auto. cbn in Hl. lia.
@@ -257,6 +258,9 @@ Proof.
   - lia.
   - specialize (IH _ (acc * s + x) H3). nia.
 Qed.
+
+Lemma Forall2_len {A B} (R : A -> B -> Prop) a b : Forall2 R a b -> length a = length b.
+Proof. induction 1; cbn; auto. Qed.
 
 Lemma firstn1_skipn {A} (d : list A) : forall k w, nth_error d k = Some w -> firstn 1 (skipn k d) = [w].
 Proof.
@@ -276,7 +280,7 @@ Theorem apply_spec doms sh d vs is :
 Proof.
   intros Hg -> Hlen Hs.
   destruct (spec_indices_numberize doms vs is Hg Hs) as [Hn HF].
-  assert (Hl : length is = length (sizes_of doms)) by (eapply Forall2_length; eauto).
+  assert (Hl : length is = length (sizes_of doms)) by (eapply Forall2_len; eauto).
   pose proof (rm_offset_lt _ _ 0 HF) as Hlt. cbn in Hlt. rewrite Nat.add_0_r in Hlt.
   destruct (nth_error d (rm_offset (sizes_of doms) is 0)) as [w|] eqn:E.
   2:{ apply nth_error_None in E. lia. }
@@ -310,7 +314,7 @@ Lemma list_eqb_Forall2 {A} (e : A -> A -> bool) (R : A -> A -> Prop) :
   forall a b, list_eqb e a b = true <-> Forall2 R a b.
 Proof.
   intros He a. induction a as [|x a IH]; intros [|y b]; cbn.
-  - split; auto. constructor.
+  - split; [constructor | reflexivity].
   - split; [discriminate|]. intros H; inversion H.
   - split; [discriminate|]. intros H; inversion H.
   - rewrite andb_true_iff, He, IH. split.
@@ -366,7 +370,7 @@ Theorem apply_oracle_sound doms t vs r : apply_oracle doms t vs r = true ->
 Proof.
   unfold apply_oracle. intros H is Hs. rewrite Hs in H.
   destruct (nth_error (snd t) (rm_offset (fst t) is 0)) as [w|]; [|discriminate].
-  destruct r as [[sh' d']|e]; cbn in H; [|discriminate].
+  destruct r as [[sh' d']|e]; unfold result_eqb, tensor_eqb in H; cbn [fst snd] in H; [|discriminate].
   apply andb_true_iff in H. destruct H as [H1 H2].
   apply nat_list_eqb_eq in H1. subst sh'.
   apply (list_eqb_Forall2 Qeq_bool Qeq Qeq_bool_iff) in H2.
